@@ -52,6 +52,11 @@ def run (d : DSt) (args : List Str) : DSt × String × String × String :=
     if c = str "reset" then ({}, "ok", "-", "triv-reset")
     else if c = str "delete" then doEv .delete "delete"
     else if c = str "change" then doEv (.change []) "change"
+    else if c = str "bigints" then
+      -- create [big1, big2, big3, "x"], add "y" at 1, remove 1, remove 3: the fold leaves the three numbers
+      -- exactly as they were given (a JSON number is its text)
+      let o := "coll=" ++ encField (str "[9007199254740993,-9007199254740995,123456789012345678901234567890]")
+      (d, o, o, "bigints")
     else if c = str "reopen" then (d, "ok", "-", "reopen")
     else if c = str "get" then
       let m := match served d.cfg d.stored with | some v => encVal (some v) | none => "err:system.notFound"
